@@ -177,6 +177,13 @@ func c09Mode(o *cli.Opts, run *evid.Run, bin, mode string) {
 	if marks := srv.CrashMarks(); len(marks) > 0 {
 		run.Violate(key+"/crash-marks", fmt.Sprintf("server output carries crash marks %v", marks), map[string]any{"stderr_tail": tailStr(srv.Stderr(), 3000)})
 	}
+	// two very large bodies (well above any plausible production document)
+	for hi, valid := range []bool{true, false} {
+		hk := fmt.Sprintf("%s/huge/%d", key, hi)
+		if run.Wants(hk) && !srv.Exited() {
+			one(n+hi, hugeRequest(gen.RNG(o.Seed, hk), ks, valid))
+		}
+	}
 	// the history ends with a valid request that must still be proved
 	last := validRequest(gen.RNG(o.Seed, key+"/last"), ks)
 	rs := send(srv.ProverAddr, last, 10*time.Minute)
